@@ -23,7 +23,7 @@ From Coq Require Import List NArith ZArith.
 From Verif.Base Require Import Bytes GoNum Ord.
 From Verif.Eco Require Import Iface.
 From Verif.Spec Require Apk ApkFacts.
-From Verif.Eco.Alpine Require Version Entry SpecFacts.
+From Verif.Eco.Alpine Require Version VersionFacts Entry SpecFacts.
 Import ListNotations.
 
 (* ====================================================================== *)
@@ -73,20 +73,49 @@ Print Assumptions C14_reference_domain.
 (* ====================================================================== *)
 
 (* [Alpine.Version.suffixOrder] is the map literal of pkg/ecosystem/alpine/version.go as extracted
-   by the generator; every reference rank is in it under its name with the reference's ordinal *)
-Theorem C14_suffixOrder_is_reference_ranks : forall r : Apk.rank,
-  lookup (match r with
-          | Apk.RAlpha => $"alpha" | Apk.RBeta => $"beta" | Apk.RPre => $"pre" | Apk.RRc => $"rc"
-          | Apk.RNone => []
-          | Apk.RCvs => $"cvs" | Apk.RSvn => $"svn" | Apk.RGit => $"git" | Apk.RHg => $"hg"
-          | Apk.RP => $"p"
-          end) Alpine.Version.suffixOrder = Some (Z.of_N (Apk.rank_ord r)).
+   by the generator.  What the property needs of it, and all it needs: every reference rank
+   ("no suffix" = "" included) is in it under its name, and its numbers order the ten names as
+   the reference orders the ten ranks.  The numbers themselves are free (an order-preserving
+   renumbering of the Go map changes nothing here). *)
+Theorem C14_suffixOrder_is_reference_ranks : forall r1 r2 : Apk.rank,
+  let name := fun r : Apk.rank =>
+        match r with
+        | Apk.RAlpha => $"alpha" | Apk.RBeta => $"beta" | Apk.RPre => $"pre" | Apk.RRc => $"rc"
+        | Apk.RNone => []
+        | Apk.RCvs => $"cvs" | Apk.RSvn => $"svn" | Apk.RGit => $"git" | Apk.RHg => $"hg"
+        | Apk.RP => $"p"
+        end in
+  exists o1 o2 : Z,
+    lookup (name r1) Alpine.Version.suffixOrder = Some o1 /\
+    lookup (name r2) Alpine.Version.suffixOrder = Some o2 /\
+    Z.compare o1 o2 = N.compare (Apk.rank_ord r1) (Apk.rank_ord r2).
 Proof. exact Alpine.SpecFacts.lookup_name_of. Qed.
 Print Assumptions C14_suffixOrder_is_reference_ranks.
 
-Theorem C14_suffixOrder_ranks_ok : Alpine.SpecFacts.ranks_ok Alpine.Version.suffixOrder = true.
-Proof. exact Alpine.SpecFacts.suffixOrder_ranks_ok. Qed.
+(* the same as the computed check over the 10 x 10 pairs of ranks *)
+Theorem C14_ranks_iso_def : forall table : list (bytes * Z),
+  Alpine.SpecFacts.ranks_iso table =
+  forallb (fun r1 =>
+    forallb (fun r2 =>
+      match lookup (Alpine.SpecFacts.name_of r1) table, lookup (Alpine.SpecFacts.name_of r2) table with
+      | Some o1, Some o2 =>
+          Alpine.SpecFacts.comparison_eqb (Z.compare o1 o2)
+            (N.compare (Apk.rank_ord r1) (Apk.rank_ord r2))
+      | _, _ => false
+      end) Alpine.SpecFacts.all_ranks) Alpine.SpecFacts.all_ranks.
+Proof. intros table. reflexivity. Qed.
+Print Assumptions C14_ranks_iso_def.
+
+Theorem C14_suffixOrder_ranks_ok : Alpine.SpecFacts.ranks_iso Alpine.Version.suffixOrder = true.
+Proof. exact Alpine.SpecFacts.suffixOrder_ranks_iso. Qed.
 Print Assumptions C14_suffixOrder_ranks_ok.
+
+(* the relation between the table and the rank of unknown suffixes that Compare's order laws
+   (C01) use: every table value is below unknownSuffixPrecedence *)
+Theorem C14_suffixOrder_below_unknown :
+  forallb (fun kv => (snd kv <? Alpine.Version.unknownSuffixPrecedence)%Z) Alpine.Version.suffixOrder = true.
+Proof. exact Alpine.VersionFacts.suffixOrder_ranks_below. Qed.
+Print Assumptions C14_suffixOrder_below_unknown.
 
 (* ====================================================================== *)
 (* C. the alpine ecosystem against the reference                           *)
